@@ -61,6 +61,8 @@ structure EnvLine where
   q : String
   books : List Obs
   envs : List EnvObs
+  /-- per asset: the `hs=` token of the book segment, if the implementation reported one -/
+  hidden : List (Option String) := []
 
 def parseEnvLine (isEnv : Bool) (toks : List String) : Option EnvLine :=
   match splitBar toks with
@@ -79,14 +81,15 @@ def parseEnvLine (isEnv : Bool) (toks : List String) : Option EnvLine :=
           | [] => some ([], [])
           | _ => none
         let (bs, es) ← go segs
-        pure { res := res, sh := val sh, perm := p, rngck := val rngck == "1", q := "ok", books := bs, envs := es }
+        let hs := ((List.range segs.length).filter (· % 2 == 0)).map fun i => hiddenOf (segs[i]?.getD [])
+        pure { res := res, sh := val sh, perm := p, rngck := val rngck == "1", q := "ok", books := bs, envs := es, hidden := hs }
       | _ => none
     else
       match hd with
       | [r, sh, q, _n] => do
         let res ← parseRes (val r)
         let bs ← segs.mapM parseBookSeg
-        pure { res := res, sh := val sh, perm := none, rngck := true, q := val q, books := bs, envs := [] }
+        pure { res := res, sh := val sh, perm := none, rngck := true, q := val q, books := bs, envs := [], hidden := segs.map hiddenOf }
       | _ => none
   | [] => none
 
@@ -191,6 +194,7 @@ structure EHist where
   rng     : Xoro
   prevB   : List Obs
   prevE   : List EnvObs
+  prevH   : List (Option String) := []
   opIdx   : Nat
   nSteps  : Nat
   kDead   : Bool
@@ -287,7 +291,8 @@ def handleEnvObs (h : EHist) (toks : List String) : EHist × List String × List
           let fields : List String :=
             ((mo.zip ln.books).flatMap fun (m, i) => diffObs m i) ++
             (if mo.length != ln.books.length then ["n_assets"] else []) ++
-            (((List.range h.ticks.length).map (modelEnvObs e')).zip ln.envs).flatMap (fun (m, i) => diffEnvObs m i)
+            (((List.range h.ticks.length).map (modelEnvObs e')).zip ln.envs).flatMap (fun (m, i) => diffEnvObs m i) ++
+            hiddenDiffs e'.market.books ln.hidden
           let nOrders := (ln.books.map (·.orders.length)).sum
           let nTrades := (ln.books.map (·.trades.length)).sum
           let tags := ["sim:run"] ++ (if nOrders > 0 then ["sim:with_orders"] else []) ++
@@ -303,7 +308,8 @@ def handleEnvObs (h : EHist) (toks : List String) : EHist × List String × List
       let mb := if isEnv then h.env.market.books else h.market.books
       let mo := mb.map (·.observe h.nLevels)
       let bad := mo != ln.books || (isEnv && (List.range h.ticks.length).map (modelEnvObs h.env) != ln.envs)
-      ({ h with started := true, prevB := ln.books, prevE := ln.envs, kDead := bad },
+                  || !(hiddenDiffs mb ln.hidden).isEmpty
+      ({ h with started := true, prevB := ln.books, prevE := ln.envs, prevH := ln.hidden, kDead := bad },
        if bad then [s!"K {h.id} init init tr=1 op=init"] else [], [])
     else
       let trFlag := match h.prevB.head? with | some o => if o.trading then "1" else "0" | none => "1"
@@ -335,6 +341,7 @@ def handleEnvObs (h : EHist) (toks : List String) : EHist × List String × List
                 (if mo.length != ln.books.length then ["n_assets"] else []) ++
                 (((List.range h.ticks.length).map (modelEnvObs e')).zip ln.envs).flatMap (fun (m, i) => diffEnvObs m i) ++
                 (if mres != ln.res then ["result"] else []) ++
+                hiddenDiffs e'.market.books ln.hidden ++
                 (match op with
                  | .step => if predicted.getD [] != ln.perm.getD [] then ["schedule"] else []
                  | _ => [])
@@ -378,7 +385,13 @@ def handleEnvObs (h : EHist) (toks : List String) : EHist × List String × List
             for a in List.range ln.books.length do
               match h.prevB[a]?, ln.books[a]?, h.prevE[a]?, ln.envs[a]? with
               | some pb, some nb, some pe, some ne =>
-                let f10 := c10Invisible op ln.res a pb nb pe ne
+                let f10 := c10Invisible op ln.res a pb nb pe ne ++
+                  (match op with
+                   | .step => []
+                   | .submit a' .. =>
+                     Audit.chk "snapshot_state_unchanged" (hiddenUntouched ((h.prevH[a]?).join) ((ln.hidden[a]?).join) (a' == a) false)
+                   | .trading _ => Audit.chk "snapshot_state_unchanged" (hiddenUntouched ((h.prevH[a]?).join) ((ln.hidden[a]?).join) false true)
+                   | _ => Audit.chk "snapshot_state_unchanged" (hiddenUntouched ((h.prevH[a]?).join) ((ln.hidden[a]?).join) false false))
                 if !f10.isEmpty then
                   let isRej := f10.contains "rejected_submission_no_trace"
                   aud := aud ++ [s!"A {if isRej then "C12" else "C10"} {h.id} {h.opIdx} {",".intercalate f10} {tail}"]
@@ -401,7 +414,7 @@ def handleEnvObs (h : EHist) (toks : List String) : EHist × List String × List
           let nSteps2 : Nat := match op with
             | .step => h.nSteps + 1
             | _ => h.nSteps
-          let h2 : EHist := { h with env := e', rng := g', prevB := ln.books, prevE := ln.envs,
+          let h2 : EHist := { h with env := e', rng := g', prevB := ln.books, prevE := ln.envs, prevH := ln.hidden,
                                      opIdx := h.opIdx + 1, nSteps := nSteps2, kDead := kDead, pendingE := none,
                                      everOverfull := h.everOverfull || (match op with | .step => qlen > h.stepSize | _ => false) }
           let opTag : String := match op with
@@ -433,7 +446,8 @@ def handleEnvObs (h : EHist) (toks : List String) : EHist × List String × List
               let fields : List String :=
                 ((mo.zip ln.books).flatMap fun (m, i) => diffObs m i) ++
                 (if mo.length != ln.books.length then ["n_assets"] else []) ++
-                (if mres != ln.res then ["result"] else [])
+                (if mres != ln.res then ["result"] else []) ++
+                hiddenDiffs m'.books ln.hidden
               if !fields.isEmpty then
                 out := out ++ [s!"K {h.id} {h.opIdx} {",".intercalate fields.eraseDups} {tail}"]; kDead := true
           let mut aud : List String := []
